@@ -15,7 +15,7 @@ func init() {
 		ID: "C02",
 		Anchors: []string{"pkg/kube/client.go", "pkg/kube/resource.go", "pkg/kube/wait.go", "pkg/kube/resource_policy.go", "pkg/action/upgrade.go", "pkg/action/rollback.go", "pkg/action/install.go",
 			"pkg/action/uninstall.go", "pkg/action/resource_policy.go", "pkg/release/util/manifest.go"},
-		NotDec: []string{"field-level equality of live objects with the manifest", "results of three-way merges under out-of-band drift", "absence of effects on bystander objects (the API server decides)", "the keep policy as read from the live object's annotations at run time"},
+		NotDec:  []string{"field-level equality of live objects with the manifest", "results of three-way merges under out-of-band drift", "absence of effects on bystander objects (the API server decides)", "the keep policy as read from the live object's annotations at run time"},
 		Trusted: []string{"k8s.io/apimachinery strategicpatch / jsonmergepatch", "k8s.io/cli-runtime resource.Helper"},
 		Run:     runC02,
 	})
